@@ -642,7 +642,14 @@ func (c *specCtx) evalCall(n *ECall) Val {
 		return VInt{c.eval(n.Args[0]).(VSlice).Cap}
 	case "ite":
 		cond := c.evalBool(n.Args[0])
-		return iteVal(cond, c.eval(n.Args[1]), c.eval(n.Args[2]))
+		a, b := c.eval(n.Args[1]), c.eval(n.Args[2])
+		if _, ok := a.(VNil); ok {
+			a = nilLike(b)
+		}
+		if _, ok := b.(VNil); ok {
+			b = nilLike(a)
+		}
+		return iteVal(cond, a, b)
 	case "min":
 		return VInt{Min(c.evalInt(n.Args[0]), c.evalInt(n.Args[1]))}
 	case "max":
@@ -1010,6 +1017,10 @@ func (c *specCtx) contractOf(key string, args []Expr, preOnly bool) Val {
 		}
 	} else {
 		for _, en := range spec.Ensures {
+			if en.Except != nil {
+				cs = append(cs, Implies(Not(sub.evalBool(en.Except)), sub.evalBool(en.E)))
+				continue
+			}
 			cs = append(cs, sub.evalBool(en.E))
 		}
 	}
@@ -1050,4 +1061,18 @@ func (e *Engine) freshIters(st *State, hint string) func(int) *Term {
 		m[ord] = t
 		return t
 	}
+}
+
+// nilLike gives the nil value with the shape of v (nil slice, nil error, ...).
+func nilLike(v Val) Val {
+	fl := Flatten(v)
+	z := make([]*Term, len(fl))
+	for i, t := range fl {
+		if t.S == BoolS {
+			z[i] = False
+		} else {
+			z[i] = Zero
+		}
+	}
+	return rebuildLike(v, z)
 }
